@@ -118,15 +118,15 @@ type scope struct {
 }
 
 type FactEngine struct {
-	p        *Prog
-	fn       *FuncInfo
-	mentions map[string][]string // atom -> access paths it depends on
-	okvars   map[types.Object]string
-	linAtoms map[string]linear // lt0 atoms: the form T + k (sign-normalised) they compare with 0
+	p         *Prog
+	fn        *FuncInfo
+	mentions  map[string][]string // atom -> access paths it depends on
+	okvars    map[types.Object]string
+	linAtoms  map[string]linear // lt0 atoms: the form T + k (sign-normalised) they compare with 0
 	rangeVals map[types.Object]ast.Expr
-	aliases  map[types.Object]ast.Expr
-	boolDefs map[types.Object]ast.Expr
-	depth    int
+	aliases   map[types.Object]ast.Expr
+	boolDefs  map[types.Object]ast.Expr
+	depth     int
 	undecided string
 }
 
@@ -871,7 +871,7 @@ type universe struct {
 
 type vset []uint64
 
-func newVset(n int) vset { return make(vset, (1<<uint(n)+63)/64) }
+func newVset(n int) vset      { return make(vset, (1<<uint(n)+63)/64) }
 func (v vset) has(i int) bool { return v[i/64]&(1<<uint(i%64)) != 0 }
 func (v vset) set(i int)      { v[i/64] |= 1 << uint(i%64) }
 func (v vset) clone() vset    { return append(vset(nil), v...) }
@@ -979,27 +979,27 @@ func (e *FactEngine) newUniverse(req *Formula, body *ast.BlockStmt, target ...as
 							}
 						}
 						for _, rx := range rhss {
-						var ps []string
-						r := e.linearOf(rx, sc, &ps)
-						if !r.ok {
-							continue
-						}
-						var cur []string
-						for a := range m {
-							cur = append(cur, a)
-						}
-						sort.Strings(cur)
-						for _, a := range cur {
-							if f := e.substLinear(a, pth, r); f != nil {
-								am := map[string]bool{}
-								f.atoms(am)
-								if len(m)+len(am) <= 17 {
-									for x := range am {
-										m[x] = true
+							var ps []string
+							r := e.linearOf(rx, sc, &ps)
+							if !r.ok {
+								continue
+							}
+							var cur []string
+							for a := range m {
+								cur = append(cur, a)
+							}
+							sort.Strings(cur)
+							for _, a := range cur {
+								if f := e.substLinear(a, pth, r); f != nil {
+									am := map[string]bool{}
+									f.atoms(am)
+									if len(m)+len(am) <= 17 {
+										for x := range am {
+											m[x] = true
+										}
 									}
 								}
 							}
-						}
 						}
 					}
 				}
